@@ -3,6 +3,7 @@ package builder
 import (
 	"fmt"
 	"go/types"
+	"sort"
 	"strings"
 
 	"github.com/dave/jennifer/jen"
@@ -132,7 +133,14 @@ func (s *Struct) Assign(gen Generator, ctx *MethodContext, assignTo *AssignTo, s
 		stmt = append(stmt, jen.Id("_").Op("=").Add(sourceID.Code.Clone()))
 	}
 
-	for name := range definedFields {
+	if len(definedFields) > 0 {
+		// report the same field on every run, independent of the map iteration order
+		names := make([]string, 0, len(definedFields))
+		for name := range definedFields {
+			names = append(names, name)
+		}
+		sort.Strings(names)
+		name := names[0]
 		return nil, NewError(fmt.Sprintf("Field %q does not exist.\nRemove or adjust field settings referencing this field.", name)).Lift(&Path{
 			Prefix:     ".",
 			TargetID:   name,
